@@ -880,3 +880,142 @@ func blockLeaves(b *ast.BlockStmt) bool {
 	}
 	return false
 }
+
+// ruleD8: the owner's pointer to its node chain (List.root, Stack.head,
+// Deque.root) is re-pointed only to a node that points back at this owner:
+// either a node created in the same function whose back pointer is set there,
+// or a node already on this owner's own chain. Adopting another owner's chain
+// leaves every element claiming membership of the other container.
+func ruleD8(c *Ctx, pkgs map[string]bool, floor int) {
+	p := c.P
+	R := c.R
+	la := c.Locks()
+	R.Rule("D8", "an owner's node pointer (List.root, Stack.head, Deque.root) is assigned only a node whose back pointer names this owner: a node allocated in the same function with its back pointer set there, or a node reached from this owner's own chain — never another container's chain", floor)
+	nodes := nodeTypes(p)
+	// owner field -> back pointer field name
+	type ownerField struct {
+		back string
+	}
+	ofields := map[*types.Var]ownerField{}
+	for tn := range nodes {
+		st := tn.Type().Underlying().(*types.Struct)
+		for i := 0; i < st.NumFields(); i++ {
+			fv := st.Field(i)
+			pt, ok := fv.Type().(*types.Pointer)
+			if !ok {
+				continue
+			}
+			n := namedOf(pt.Elem())
+			if n == nil {
+				continue
+			}
+			ntn := n.Origin().Obj()
+			if _, isNode := nodes[ntn]; !isNode || ntn == tn {
+				continue
+			}
+			// tn must be an owner (not itself a chain node) and ntn a chain node
+			if !strings.HasPrefix(nodes[tn], "owner") || !strings.HasPrefix(nodes[ntn], "self-referential") {
+				continue
+			}
+			// the node has a field pointing back to tn
+			nst := ntn.Type().Underlying().(*types.Struct)
+			for j := 0; j < nst.NumFields(); j++ {
+				if bp, ok := nst.Field(j).Type().(*types.Pointer); ok {
+					if bn := namedOf(bp.Elem()); bn != nil && bn.Origin().Obj() == tn {
+						ofields[fv] = ownerField{back: nst.Field(j).Name()}
+					}
+				}
+			}
+		}
+	}
+	for _, f := range p.Funcs {
+		if !pkgs[shortPkg(f.Pkg.PkgPath)] {
+			continue
+		}
+		info := f.Info()
+		walkNoLit(f.Body, func(x ast.Node) bool {
+			as, ok := x.(*ast.AssignStmt)
+			if !ok {
+				return true
+			}
+			for i, l := range as.Lhs {
+				se, ok := ast.Unparen(l).(*ast.SelectorExpr)
+				if !ok {
+					continue
+				}
+				s := info.Selections[se]
+				if s == nil || s.Kind() != types.FieldVal {
+					continue
+				}
+				of, ok := ofields[s.Obj().(*types.Var).Origin()]
+				if !ok {
+					continue
+				}
+				var rhs ast.Expr
+				if len(as.Rhs) == len(as.Lhs) {
+					rhs = as.Rhs[i]
+				} else {
+					continue
+				}
+				at := fmt.Sprintf("%s/%s=%s", f.Name, exprStr(se), trunc(exprStr(rhs), 40))
+				pos := p.Position(as.Pos())
+				if why, ok := d8Exceptions[at]; ok {
+					R.Exception("D8", at+": "+why)
+					R.OK("D8", at, pos, "tabled: "+why)
+					continue
+				}
+				owner := exprStr(se.X)
+				r := exprStr(rhs)
+				switch {
+				case strings.HasPrefix(r, owner+"."+se.Sel.Name) || r == owner:
+					R.OK("D8", at, pos, "moves along the owner's own chain ("+r+")")
+				case la.freshExpr(f, rhs, 0) || func() bool {
+					id, ok := ast.Unparen(rhs).(*ast.Ident)
+					return ok && la.isFresh(f, info.Uses[id], 0)
+				}():
+					// back pointer must be set in the same function (assignment or composite key)
+					set := false
+					ast.Inspect(f.Body, func(y ast.Node) bool {
+						switch t := y.(type) {
+						case *ast.AssignStmt:
+							for _, ll := range t.Lhs {
+								if bs, ok := ast.Unparen(ll).(*ast.SelectorExpr); ok && bs.Sel.Name == of.back {
+									set = true
+								}
+							}
+						case *ast.KeyValueExpr:
+							if k, ok := t.Key.(*ast.Ident); ok && k.Name == of.back {
+								set = true
+							}
+						}
+						return true
+					})
+					R.Check(set, "D8", at, pos, "new node, back pointer ."+of.back+" set in the same function", fmt.Sprintf("%s installs a new %s node but never sets its .%s back pointer to the owner", f.Name, se.Sel.Name, of.back))
+				default:
+					// a node the function just linked with its back pointer set (n.stack = …; n.stack.head = n)
+					if id, ok := ast.Unparen(rhs).(*ast.Ident); ok {
+						set := false
+						walkNoLit(f.Body, func(y ast.Node) bool {
+							if t, ok := y.(*ast.AssignStmt); ok && t.Pos() < as.Pos() {
+								for _, ll := range t.Lhs {
+									if bs, ok := ast.Unparen(ll).(*ast.SelectorExpr); ok && bs.Sel.Name == of.back {
+										if bid, ok := ast.Unparen(bs.X).(*ast.Ident); ok && info.Uses[bid] == info.Uses[id] {
+											set = true
+										}
+									}
+								}
+							}
+							return true
+						})
+						if set {
+							R.OK("D8", at, pos, "node "+id.Name+" whose back pointer was just set")
+							continue
+						}
+					}
+					R.Fail("D8", at, pos, fmt.Sprintf("%s points %s at %s, a node that belongs to another container (or whose back pointer is not updated): the elements still report the old owner, so In(), pop and remove reject them or update the wrong length", f.Name, exprStr(se), r))
+				}
+			}
+			return true
+		})
+	}
+}
